@@ -256,6 +256,23 @@ def run(ctx, R, tier):
     ok = not any(e.kind != "exc" for e in cfg.exit.pred if e.src.id in cfg.live() and (e.src.kind != "stmt" or not isinstance(e.src.ast, ast.Return)))
     R.check(ok, "C09-R6", "modes|unknown-raises", "an unknown instance mode raises", f.loc(), "_getInstance can fall through and return None for an unknown mode")
 
+    # the instance mode applies to exactly the registered classes: the dispatcher calls _getInstance under inspect.isclass(<registry value>)
+    h = ctx.fn("Pyro5.server.Daemon.handleRequest")
+    hcfg = ctx.cfg(h)
+    gi = ctx.calls_to(h, "Pyro5.server.Daemon._getInstance")
+    ok = len(gi) == 1
+    why = "handleRequest no longer calls _getInstance exactly once"
+    if ok:
+        arg = unparse(gi[0].args[0]) if gi[0].args else None
+
+        def is_class(want):
+            def pred(atom, pol):
+                return pol is want and isinstance(atom, ast.Call) and unparse(atom.func) in ("inspect.isclass", "isclass") and atom.args and unparse(atom.args[0]) == arg
+            return pred
+        ok = all(hcfg.guarded(n, lambda e: edge_has_fact(e, is_class(True))) for n in ctx.node_of(h, gi[0])) and not enclosing_loops(gi[0], h.node)
+        why = "_getInstance is not called exactly for registry values that are classes (or it moved into the batch loop)"
+    R.check(ok, "C09-R5", "handleRequest|getInstance-for-classes-only", "_getInstance(obj, conn) runs once per request, exactly when the registry value is a class", h.loc(gi[0]) if gi else h.loc(), why)
+
     # ---------------------------------------------------------------- R7
     from .common import fresh_per_instance
     fresh_per_instance(ctx, R, "C09-R7", "Pyro5.server.Daemon", "_pyroInstances", "every daemon in the process would serve 'single' classes from one shared instance table")
